@@ -428,6 +428,15 @@ DEGENERATE = {
     ],
 }
 
+# degenerate values that leave the host / address NAME empty without being the
+# plain ":<port>" form in a Forwarded for= (the "empty-host" malformed class):
+# the property does not say whether they count as "an empty host"; C16 reports
+# their outcome in counters only (unclassified:empty-name-variant:<status>)
+EMPTY_NAME_VARIANTS = (
+    ":80", ":", "[]", "[]:80", ":443", ":8.0", ":.", "host=:80", 'host=":"', 'for="[]"', 'for="[]:80"', "for=:",
+    'for=":"', 'for=":8.0"', "for=:.", "[:80]",
+)
+
 # ------------------------------------------------ single-byte neighbourhood
 
 NEIGHBOUR_BASES = [
